@@ -22,8 +22,8 @@ META = {
     "level_text_more": 'Also: every triple of allow filters (=, in, in []) on type or id, as query argument and split over the three routes into a FileSystemSource; contains on strings, dictionary keys/values, lists and dotted paths in 4 forms. Timestamp-text filters decided by pysym for 6 operators over symbolic texts; all_versions/get under attached filters incl. a filter that separates the versions of an id; query argument as list, FilterSet, single filter.',
     "level_note": "Operator semantics for 'contains' on list-valued properties is not asserted (undocumented). File system is the in-memory stub. "
                   "Optimiser/route obligations are selector-enumerated over small tables (3 types x 4 ids, 4 filters x 4 placements).",
-    "technique": "CrossHair symbolic execution of the real filter/optimiser functions (z3), enumerated filter sets on an in-memory FS stub; "
-                 "counterexamples replayed natively",
+    "technique": "CrossHair symbolic execution of the real filter/optimiser functions (z3), AST-to-SMT interpretation (pysym) of timestamp-text comparison, "
+                 "enumerated filter sets on an in-memory FS stub; counterexamples replayed natively",
     "outside": ["TAXII filters", "real OS file system", "operators applied to a property kind they are not defined for (raise TypeError)"],
     "assumptions": [FMT, FSS],
 }
